@@ -124,6 +124,30 @@ def range_rules(name, cfg):
                 return msg
             return None
         return f
+    if name == "TrendStrengthIndex":
+        n = cfg["period"][1]
+        srcname = cfg["source"][1]
+
+        def f(t, v, c, hist, M):
+            xs = [c06.src_of(h, srcname) for h in hist[-n:]]
+            if len(xs) < n:
+                xs = [c06.src_of(hist[0], srcname)] * (n - len(xs)) + xs
+            mean = math.fsum(xs) / n
+            Q = math.fsum((x - mean) ** 2 for x in xs)          # n * variance of the window: the formula divides by its square root
+            if Q == 0.0:
+                return None                                       # flat window: the correlation is undefined (0 / 0)
+            Mx = max(abs(c06.src_of(h, srcname)) for h in hist)
+            A2 = K * U * (t + n + 8) * Mx * Mx * n                # rounding allowance of the running sums of squares over the history
+            y = v[0]
+            if in_range(y, -1.0, 1.0, t, L):
+                return None
+            msg = "step %d: TSX value %r is outside its documented interval [-1, 1] (window variance x n = %.3g)" % (t, y, Q)
+            if Q <= 8 * A2:
+                msg += " [residue class: the window's sum of squared deviations %.3g is within the rounding allowance %.3g of the running sums of squares]" % (Q, A2)
+            else:
+                msg += " [NOT explained by rounding residue: sum of squared deviations %.3g > allowance %.3g]" % (Q, A2)
+            return msg
+        return f
     if name == "TrueStrengthIndex":
         return interval([0, 1], -1.0, 1.0, "TSI")
     if name == "SMIErgodicIndicator":
@@ -342,7 +366,7 @@ def _tsi_oracle(L):
 
 RANGED = ["Aroon", "RelativeStrengthIndex", "MoneyFlowIndex", "StochasticOscillator", "ChandeMomentumOscillator", "ChaikinMoneyFlow",
           "TrueStrengthIndex", "SMIErgodicIndicator", "BollingerBands", "KeltnerChannel", "Envelopes", "DonchianChannel",
-          "PriceChannelStrategy", "ParabolicSAR"]
+          "PriceChannelStrategy", "ParabolicSAR", "TrendStrengthIndex"]
 
 
 def nonneg_sets(t, r, n):
@@ -383,6 +407,8 @@ def run(ctx):
                        [fl(3.0, 1e4), fl(0.001, 0.1), fl(2.5, 7.0), fl(1e8, 0.1), fl(1e8, 0.1), fl(1e8, 1.0)], "known-finding-witness"))
     cases.append(RCase(tabs["RelativeStrengthIndex"], [("ma", "wma-3")], fl(100.0, 1.0),
                        [fl(0.001, 1.0), fl(7.0, 1.0), fl(7.0, 1.0), fl(7.0, 1.0), fl(7.0, 1.0)], "known-finding-witness"))
+    cases.append(RCase(tabs["TrendStrengthIndex"], [("period", "2"), ("reverse_offset", "1")], fl(1e8, 1.0),
+                       [fl(100.0, 1.0), fl(0.7, 1.0)], "known-finding-witness"))
     low = lambda v: (2.0, 2.0, 1.0, 1.0, v)   # closes on its low: CLV = -1 exactly
     cases.append(RCase(tabs["ChaikinMoneyFlow"], [("size", "2")], low(1e8), [low(0.3), low(0.1)], "known-finding-witness"))
     cases.append(RCase(tabs["RelativeStrengthIndex"], [("ma", "vidya-3")], fl(100.0, 1.0),
